@@ -87,6 +87,15 @@ class Ctx:
         if os.path.exists(out):
             return out
         cmd = ["go", "build", "-tags", tags]
+        if os.path.realpath(REPO) != "/repo":
+            # development aid: build against another checkout (scratch worktree with a candidate change)
+            # without touching /repo; registered checks never set VERIF_REPO.
+            alt = self.path("go.alt.mod")
+            if not os.path.exists(alt):
+                mod = open(os.path.join(VERIF, "harness", "go.mod")).read()
+                open(alt, "w").write(mod.replace("=> /repo", "=> " + os.path.realpath(REPO)))
+                shutil.copy(os.path.join(VERIF, "harness", "go.sum"), self.path("go.alt.sum"))
+            cmd += ["-modfile", alt]
         if race:
             cmd.append("-race")
         cmd += ["-o", out, "./cmd/" + name]
